@@ -236,3 +236,46 @@ SLICE_ATTRS = [SliceAttr("top", TOP), SliceAttr("bot", BOT), SliceAttr("step", S
 CONTRACTS = [GetInner(), ExportSlice(), PortDirExport()] + SLICE_ATTRS
 VERIFY = CONTRACTS
 MIN_OBLIGATIONS = {"hdl21.proto.exporting:export_slice": 8}
+
+
+# ------------------------------------------------------------------------------------------------ module names
+from hdl21.proto.exporting import ProtoExporter, ModuleMapping
+from hdl21.module import Module as _Module
+
+
+class ModuleQualname(Contract):
+    key = "hdl21.qualname:qualname"
+    raises = ()
+    returns = "str"
+
+    def scenarios(self, eng):
+        return []
+
+
+class ExportModuleName(Contract):
+    """export_module_name(module): the module's qualified name, refused (RuntimeError) when another module of this
+    export already carries it - two different modules never share an exported name."""
+    key = "hdl21.proto.exporting:ProtoExporter.export_module_name"
+    props = ("C06", "C02", "C09")
+    raises = (RuntimeError,)
+    returns = "str"
+
+    def scenarios(self, eng):
+        def setup(eng, st):
+            eng.field_classes["modules_by_name[]"] = (ModuleMapping,)
+            eng.field_classes["hmod"] = (_Module,)
+            return {"self": sym_ref(st, "self", (ProtoExporter,)), "module": sym_ref(st, "module", (_Module,))}
+        yield Scenario("any", setup)
+
+    def p_fresh(self, eng, st0, st, a, res):
+        taken = st0.heap.get("modules_by_name", a.self.z)
+        return z3.Select(taken, zstr(res)) == NULL
+    posts = property(lambda self: [("name-not-taken", self.p_fresh)])
+
+
+def names_engine():
+    return mk_engine(contracts=[ModuleQualname(), ExportModuleName()],
+                     schema_extra={"modules_by_name": "map[str,ref]", "hmod": "ref"})
+
+
+VERIFY_NAMES = [ExportModuleName()]
